@@ -2,6 +2,8 @@
 // timeline of several weeks (simulated clock), compared at every step with an interval model; plus the pure
 // decode_dow clause enumerated directly.
 #include "fx.hpp"
+#include <sstream>
+#include <memory>
 
 using namespace FIX8;
 using drv::Op; using drv::Plan; using drv::Result;
@@ -71,6 +73,11 @@ struct C24 : drv::Harness
 		p.knobs["step_seed"] = (int64_t)(rng.next() >> 2);
 		p.knobs["start_off_ms"] = rng.range(0, 7 * 86400) * 1000;
 		p.knobs["dow_check"] = rng.chance(0.02);
+		// half of the schedules are built by the real Configuration::create_session_schedule() from XML text (weekday spelled as a
+		// name or a digit, end_day left out when it equals start_day), the rest are constructed directly
+		p.knobs["via_config"] = rng.chance(0.5);
+		p.knobs["day_style"] = rng.below(3);          // 0 two-letter name, 1 digit, 2 capitalised name
+		p.knobs["end_day_omitted"] = rng.chance(0.5);
 		return p;
 	}
 
@@ -82,6 +89,24 @@ struct C24 : drv::Harness
 		const int64_t start = p.knob("start_s") * S, end = p.knob("end_s") * S, off = p.knob("utc_off_min") * MIN;
 		const int sday = (int)p.knob("sday", -1), eday = (int)p.knob("eday", -1);
 		Schedule sch(Tickval(static_cast<Tickval::ticks>(start)), Tickval(static_cast<Tickval::ticks>(end)), Tickval(), (int)p.knob("utc_off_min"), sday, eday);
+		if (p.knob("via_config"))
+		{
+			static const char *names[3][7] = { { "su", "mo", "tu", "we", "th", "fr", "sa" }, { "0", "1", "2", "3", "4", "5", "6" }, { "Su", "Mo", "Tu", "We", "Th", "Fr", "Sa" } };
+			const int style = (int)p.knob("day_style") % 3;
+			auto hms = [](int64_t sec) { char b[16]; snprintf(b, sizeof b, "%02d:%02d:%02d", (int)(sec / 3600), (int)(sec / 60 % 60), (int)(sec % 60)); return std::string(b); };
+			std::ostringstream xml;
+			xml << "<?xml version='1.0' encoding='ISO-8859-1'?>\n<fix8>\n<default role=\"acceptor\" fix_version=\"4200\" ip=\"0.0.0.0\" port=\"11001\"/>\n"
+				<< "<session name=\"S1\" active=\"true\" sender_comp_id=\"A1\" schedule=\"sch1\"/>\n<schedule name=\"sch1\" start_time=\"" << hms(start / S) << "\" end_time=\"" << hms(end / S) << "\"";
+			if (sday >= 0) { xml << " start_day=\"" << names[style][sday] << "\""; if (!(eday == sday && p.knob("end_day_omitted"))) xml << " end_day=\"" << names[style][eday] << "\""; }
+			xml << " utc_offset_mins=\"" << p.knob("utc_off_min") << "\"/>\n</fix8>\n";
+			std::istringstream istr(xml.str());
+			Configuration conf(istr, true);
+			const XmlElement *se = conf.get_session(0);
+			std::unique_ptr<Session_Schedule> ss(se ? conf.create_session_schedule(se) : nullptr);
+			if (!ss || !ss->_sch.is_valid()) r.fail("schedule_not_created", "via_config", "Configuration::create_session_schedule returned no valid schedule for: " + xml.str());
+			else sch = ss->_sch;
+			sim::count(sday >= 0 && eday == sday && p.knob("end_day_omitted") ? "config_weekly_end_day_omitted" : "config_schedule");
+		}
 		std::string kind = sday < 0 ? "daily" : sday == eday ? "weekly_same_day" : sday < eday ? "weekly_forward" : "weekly_wrap";
 
 		// move to an instant where the schedule is inactive, start with prev = false
@@ -133,7 +158,7 @@ struct C24 : drv::Harness
 		return r;
 	}
 
-	std::vector<std::pair<std::string, int64_t>> knob_floor() const override { return { { "utc_off_min", 0 }, { "start_off_ms", 0 }, { "weeks", 2 }, { "dow_check", 0 } }; }
+	std::vector<std::pair<std::string, int64_t>> knob_floor() const override { return { { "utc_off_min", 0 }, { "start_off_ms", 0 }, { "weeks", 2 }, { "dow_check", 0 }, { "via_config", 0 }, { "day_style", 0 }, { "end_day_omitted", 0 } }; }
 };
 
 int main(int argc, char **argv)
